@@ -152,6 +152,36 @@ def ValidatorSet (sp : Bool) (cell_slice : Frag) : Rd.R := do
   pure ((Rd.obj "ValidatorSet" [("type_", t16), ("utime_since", t3), ("utime_until", t4), ("total", t5), ("main", t6), ("total_weight", t15), ("list", t17)]), cell_slice)
 -- END ValidatorSet
 
+-- BEGIN ShardAccounts
+def ShardAccounts (sp : Bool) (cell_slice : Frag) : Rd.R := do
+  let (t1, cell_slice) ← Rd.loadHashmapAugE 256 (ShardAccount false) (DepthBalanceInfo false) sp cell_slice
+  pure (t1, cell_slice)
+-- END ShardAccounts
+
+-- BEGIN OldMcBlocksInfo
+def OldMcBlocksInfo (sp : Bool) (cell_slice : Frag) : Rd.R := do
+  let (t1, cell_slice) ← Rd.loadHashmapAugE 32 (Src.KeyExtBlkRef false) (Src.KeyMaxLt false) sp cell_slice
+  pure (t1, cell_slice)
+-- END OldMcBlocksInfo
+
+-- BEGIN BlockCreateStats
+def BlockCreateStats (sp : Bool) (cell_slice : Frag) : Rd.R := do
+  let (t1, cell_slice) ← Rd.loadBytes 1 cell_slice
+  let t2 ← Rd.bytesPrefix 1 t1
+  if (Rd.veq t2 (Rd.bytesLit [23])) then do
+    let t3 := (Rd.str "block_create_stats")
+    let (t4, cell_slice) ← Rd.loadDict 256 (Src.CreatorStats false) cell_slice
+    pure ((Rd.obj "BlockCreateStats" [("type_", t3), ("counters", t4)]), cell_slice)
+  else do
+    let t5 ← Rd.bytesPrefix 1 t1
+    if (Rd.veq t5 (Rd.bytesLit [52])) then do
+      let t6 := (Rd.str "block_create_stats_ext")
+      let (t7, cell_slice) ← Rd.loadHashmapAugE 256 (Src.CreatorStats false) (Rd.loadUint 32) sp cell_slice
+      pure ((Rd.obj "BlockCreateStats" [("type_", t6), ("counters", t7)]), cell_slice)
+    else do
+      none
+-- END BlockCreateStats
+
 /-- the readers by class name (driver op `tlbsrcblk`) -/
 def readers : List (String × (Bool → Frag → Rd.R)) := [
   ("DepthBalanceInfo", DepthBalanceInfo),
@@ -160,6 +190,9 @@ def readers : List (String × (Bool → Frag → Rd.R)) := [
   ("AccountStorage", AccountStorage),
   ("Account", Account),
   ("ShardAccount", ShardAccount),
-  ("ValidatorSet", ValidatorSet)]
+  ("ValidatorSet", ValidatorSet),
+  ("ShardAccounts", ShardAccounts),
+  ("OldMcBlocksInfo", OldMcBlocksInfo),
+  ("BlockCreateStats", BlockCreateStats)]
 
 end TonVerif.Tlb.SrcBlk
